@@ -172,7 +172,7 @@ def main():
         "id": sid,
         "property_broken": prop,
         "origin": "fresh sub-agent given only the property text and a scratch worktree" + (
-            " (round %d, asked for a mechanism different from the earlier ones)" % (" bcdefg".index(sid[3]) + 1) if len(sid) > 3 else " (round 1)"),
+            " (round %d, asked for a mechanism different from the earlier ones)" % (" bcdefghijklmn".index(sid[3]) + 1) if len(sid) > 3 else " (round 1)"),
         "needs_to_manifest": NEEDS.get(sid, ""),
         "confirmed": conf,
         "detected_by": detection,
